@@ -103,6 +103,22 @@ def gen_cases(tier, rng):
                         sched = ",".join("%d:%d:%d" % (t, off + i, nb[i]) for i in range(4))
                         cases.append("cv09 cvba %d %d 0 %s %s" % (off, size, hexs(w), sched))
                     cases.append("cv09 cvba %d %d 0 %s %s" % (off, size, hexs(w), "0:%d:%d,1:%d:%d" % (off, nb[0], off + 3, nb[3])))
+    # copy_and_verify on a pointer cell in sandbox memory: the cell (4 bytes at 0) designates object A (at 8) or B (at 16) of the
+    # window; the adversary redirects or nulls the cell before the fetch, between fetch and read, and afterwards
+    for elsz in (1, 2, 4, 8):
+        wl = 24
+        for rep in range(2 if q else 8):
+            body = [rng.randrange(256) for _ in range(wl)]
+            for tgt in (8, 16):
+                w = le4(TOT - wl + tgt) + body[4:]
+                cases.append("cv09 ptrc 0 %d 0 %s -" % (elsz, hexs(w)))
+                for new in (TOT - wl + (24 - tgt), 0):
+                    nb = le4(new)
+                    for t in (0, 1, 2):
+                        sched = ",".join("%d:%d:%d" % (t, i, nb[i]) for i in range(4))
+                        cases.append("cv09 ptrc 0 %d 0 %s %s" % (elsz, hexs(w), sched))
+                # the object itself rewritten between fetch and read (allowed: the snapshot is taken at the read)
+                cases.append("cv09 ptrc 0 %d 0 %s 1:%d:%d" % (elsz, hexs(w), tgt, body[tgt] ^ 0xff))
     return cases
 
 
